@@ -1,0 +1,120 @@
+//go:build verif
+
+// Verification hook for property C16 (add-only, compiled only with -tags verif):
+// a read-only dump of what a compiled rule contains, for the correspondence harness.
+
+package corazawaf
+
+// VerifC16Exception is one entry of a variable's exception list.
+type VerifC16Exception struct {
+	KeyStr string
+	HasRx  bool
+	Rx     string
+}
+
+// VerifC16Variable is one entry of Rule.variables.
+type VerifC16Variable struct {
+	Name       string
+	Count      bool
+	KeyStr     string
+	HasRx      bool
+	Rx         string
+	Exceptions []VerifC16Exception
+}
+
+// VerifC16Action is one entry of Rule.actions (name as registered by AddAction, type of the action).
+type VerifC16Action struct {
+	Name string
+	Type int
+}
+
+// VerifC16Dump is the observable content of a compiled rule.
+type VerifC16Dump struct {
+	Variables   []VerifC16Variable
+	HasOperator bool
+	OpFunction  string
+	OpData      string
+	OpNegation  bool
+	Actions     []VerifC16Action
+	NumTransf   int
+	ID          int
+	Phase       int
+	HasMsg      bool
+	Msg         string
+	HasLogData  bool
+	LogData     string
+	Tags        []string
+	Rev         string
+	Version     string
+	Severity    int
+	Maturity    int
+	Status      int
+	HasChain    bool
+	Capture     bool
+	Log         bool
+	Audit       bool
+	MultiMatch  bool
+}
+
+// VerifC16DumpRule returns the dump of r.
+func VerifC16DumpRule(r *Rule) VerifC16Dump {
+	d := VerifC16Dump{}
+	for _, v := range r.variables {
+		dv := VerifC16Variable{Name: v.Variable.Name(), Count: v.Count, KeyStr: v.KeyStr}
+		if v.KeyRx != nil {
+			dv.HasRx = true
+			dv.Rx = v.KeyRx.String()
+		}
+		for _, e := range v.Exceptions {
+			de := VerifC16Exception{KeyStr: e.KeyStr}
+			if e.KeyRx != nil {
+				de.HasRx = true
+				de.Rx = e.KeyRx.String()
+			}
+			dv.Exceptions = append(dv.Exceptions, de)
+		}
+		d.Variables = append(d.Variables, dv)
+	}
+	if r.operator != nil {
+		d.HasOperator = true
+		d.OpFunction = r.operator.Function
+		d.OpData = r.operator.Data
+		d.OpNegation = r.operator.Negation
+	}
+	for _, a := range r.actions {
+		d.Actions = append(d.Actions, VerifC16Action{Name: a.Name, Type: int(a.Function.Type())})
+	}
+	d.NumTransf = len(r.transformations)
+	d.ID = r.ID_
+	d.Phase = int(r.Phase_)
+	if r.Msg != nil {
+		d.HasMsg = true
+		d.Msg = r.Msg.String()
+	}
+	if r.LogData != nil {
+		d.HasLogData = true
+		d.LogData = r.LogData.String()
+	}
+	d.Tags = append(d.Tags, r.Tags_...)
+	d.Rev = r.Rev_
+	d.Version = r.Version_
+	d.Severity = int(r.Severity_)
+	d.Maturity = r.Maturity_
+	d.Status = r.DisruptiveStatus
+	d.HasChain = r.HasChain
+	d.Capture = r.Capture
+	d.Log = r.Log
+	d.Audit = r.Audit
+	d.MultiMatch = r.MultiMatch
+	return d
+}
+
+// VerifC16DumpRules dumps every rule of the WAF's rule group in order.
+func VerifC16DumpRules(w *WAF) []VerifC16Dump {
+	rules := w.Rules.GetRules()
+	res := make([]VerifC16Dump, 0, len(rules))
+	for i := range rules {
+		res = append(res, VerifC16DumpRule(&rules[i]))
+	}
+	return res
+}
